@@ -42,7 +42,7 @@ CLAIMED.update({
              'serialise/deserialise round trip are not decided.',
         note='Trusted: CBMC incl. its malloc/realloc/memcpy models.', ref='5/C07'),
     'C10': dict(
-        text='Partial and bounded: cif_value_parse_numb agrees with a recogniser of the CIF numeric syntax on ALL strings shorter than MAXT code units '
+        text='Partial: the rounding decision helpers is_zero / compare_half (tie / above / below, the basis of round-half-even) are under contract, loop closed by invariant. Bounded: cif_value_parse_numb agrees with a recogniser of the CIF numeric syntax on ALL strings shorter than MAXT code units '
              '(complete unwinding, unwinding assertions on) and leaves the value untouched on refusal. Correct rounding of the bignum conversions is '
              'outside the reach of CBMC and explicitly not decided.',
         note='Bounded stand-in (string length < 8 quick / 12 thorough); never counted as proved obligations in the evidence.', ref='5/C10',
@@ -75,6 +75,21 @@ CLAIMED.update({
              '(all three allocation sites incl. the retry and the terminator realloc) and cif_buf_write: documented error code, outputs untouched, '
              'no leak, no invalid free, no out-of-bounds write on any failure path.',
         note='Scope = the functions listed in the evidence; allocations inside SQLite/ICU are not decided.', ref='5/C17'),
+})
+
+CLAIMED.update({
+    'C08': dict(
+        text='get_more_chars - the only place where scanned text moves relative to the scan buffer - is under contract for every buffer state (reset, '
+             'compaction, growth, append) and every answer of the character source: token-relative offsets preserved, pointers in bounds, source asked '
+             'at most once into the free tail (complete for buffers up to MAXBUF units; that half has no loop). CR / CR LF folding of a fill is decided '
+             'by a bounded job (fill <= 4 quick / 7 thorough units, all contents) against the folding specification.',
+        note='Trusted: CBMC; assumed contracts for read_func, memmove/memcpy (range only), u_memchr/u_memmove. Line counting and decode_text not decided.',
+        ref='5/C08'),
+    'C16': dict(
+        text='Scope-limited: the memory-safety, overflow, free and leak obligations of every function under contract (CBMC 6 default checks + '
+             '--memory-leak-check where the harness releases what the caller owns) are collected in one check; the evidence lists the functions covered '
+             'and, explicitly, what is not (all SQLite choreography, most of the parser, locale handling).',
+        note='Trusted: CBMC memory model. Not a whole-library claim.', ref='5/C16'),
 })
 
 NOT_APPLICABLE = {
